@@ -58,6 +58,12 @@ func (g *gzipResponseWriter) sendHeader() {
 }
 
 func (g *gzipResponseWriter) Write(b []byte) (int, error) {
+	// Once the response is being streamed uncompressed, keep streaming: nothing
+	// buffered after that point would ever be delivered
+	if g.bufferExceeded {
+		return g.ResponseWriter.Write(b)
+	}
+
 	// Check if adding this data would exceed max buffer size
 	if g.buf.Len()+len(b) > MaxCompressionBufferSize {
 		// Mark as exceeded and fall back to streaming uncompressed
